@@ -299,6 +299,31 @@ def p_nearmiss(rng: Any) -> tuple[str, list[Any]]:
     return ('nearmiss/X.I@otherX', [x1.I, x2]) if rng.integers(2) else ('nearmiss/X@otherX.I', [x1, x2.I])
 
 
+def p_blockdiag_identities(rng: Any) -> tuple[str, list[Any]]:
+    """X, BlockDiagonal(blocks that reduce to identities), X.T-like neighbours: the block-diagonal operand must
+    disappear (identity factor) and the neighbours must then be simplified together."""
+    n = int(rng.integers(1, 4))
+    blocks = []
+    for _ in range(n):
+        s = _leaf(rng)
+        form = int(rng.integers(3))
+        if form == 0:
+            p = gen.a_pack(rng, s)
+            blocks.append(CompositionOperator([p, p.T]))          # P @ P.T -> I
+        elif form == 1:
+            _, seg = p_reshape(rng)
+            blocks.append(CompositionOperator(list(seg)))          # R @ R.T or R.T @ R -> I
+        else:
+            blocks.append(IdentityOperator(s))
+    bd = BlockDiagonalOperator(_block_container(rng, blocks))
+    st = bd.in_structure()
+    if rng.integers(2):
+        d = gen.atom(rng, st, only=('dense',))
+        if gen.struct_eq(d.in_structure(), st):
+            return 'blockdiag_identities', [bd, d]
+    return 'blockdiag_identities', [bd]
+
+
 PATTERNS = {
     'inverse': p_inverse,
     'qurot': p_qurot,
@@ -312,6 +337,7 @@ PATTERNS = {
     'reshape': p_reshape,
     'moveaxis': p_moveaxis,
     'nearmiss': p_nearmiss,
+    'blockdiag_identities': p_blockdiag_identities,
 }
 
 INERT = ('dense', 'diagonal', 'toeplitz', 'broadcast_diagonal')
